@@ -289,7 +289,8 @@ class Worker:
                 pass
             self.p = None
 
-    def run(self, job, timeout=6):
+    def run(self, job, timeout=None):
+        timeout = timeout or job.get("timeout") or 6      # batch programs (hundreds of rows) ask for more
         _prepare_slot(self.slot, job)
         if self.p is None or self.p.poll() is not None:
             self.start()
